@@ -1,4 +1,5 @@
 import Swat4.Gen.Facts
+import Swat4.Model.UdpServer
 /-!
 # C06 — finer regenerated facts: deadlines, recovery middleware, read buffers, partial operations
 -/
@@ -138,5 +139,15 @@ theorem facts_partial_ops_browser :
        ("state.go", "decryptByte", "index", "cs.cards[cs.ratchet]"),
        ("browsing.go", "NewRequest", "slice", "data[9:dataLen]")] := by
   decide
+
+/-- **The buffer size the reporter drivers cut datagrams to is the source's.**  `UdpServer.defaultBufferSize`
+(`Model/UdpServer.lean`) is the `bufSize` the drivers of C04 / C05 / C06 pass to `UdpServer.deliver`
+(`Drv/RepCommon.lean`: `UdpServer.deliver UdpServer.defaultBufferSize payload` — what the handler sees of a received
+datagram); it equals the regenerated `default:` tag of the reporter's `--reporter-buffer-size` flag
+(`Facts.reporterBufferDefault`, go/ast on every run), which the running service passes on as
+`udpserver.WithBufferSize(cfg.BufferSize)` (`facts_udp_read_buffer`) and which the harness configures as well
+(`harness/internal/reputil/wire.go:61,178`: `BufferSize: 2048`).
+*Edit detected:* a different flag default: the model constant no longer matches and this theorem breaks. -/
+theorem facts_udp_buffer_is_model : UdpServer.defaultBufferSize = Facts.reporterBufferDefault := by decide
 
 end Swat4.C06
